@@ -491,9 +491,9 @@ variable {σ : Type} {P : σ → Prop} {vt : VTree} {andF : AndF σ} {i : Nat}
 
 theorem or_primeOKs (hnd : vt.leaves.Nodup) (hand : AndOKs P vt andF) {st st' : σ} {p q r : Ptr}
     (hP : P st) (hp : PrimeOKs vt i p) (hq : PrimeOKs vt i q) (h : orF andF st p q = some (st', r)) :
-    P st' ∧ PrimeOKs vt i r := by
+    P st' ∧ PrimeOKs vt i r ∧ ∀ v ∈ r.vars, v ∈ p.vars ∨ v ∈ q.vars := by
   obtain ⟨hP', wr, vr, er⟩ := orF_oks hand hP hp.1 hq.1 h
-  refine ⟨hP', wr, ?_, ?_⟩
+  refine ⟨hP', ⟨wr, ?_, ?_⟩, vr⟩
   · rintro rfl
     obtain ⟨a, ha⟩ := sat_of_wfs hnd hp.1 hp.2.1
     have := er a; simp [ha] at this
@@ -508,7 +508,8 @@ theorem compressInner_oks (hnd : vt.leaves.Nodup) (hand : AndOKs P vt andF) (s :
     rem.length ≤ n →
     compressInner andF s n st p done rem = some (st', p', out) →
     P st' ∧ PrimeOKs vt i p' ∧ (∀ e ∈ out, ElemOKs vt i e ∧ e.2 ≠ s) ∧
-      out.length ≤ done.length + rem.length ∧ ∀ e ∈ out, e ∈ done ++ rem := by
+      out.length ≤ done.length + rem.length ∧ (∀ e ∈ out, e ∈ done ++ rem) ∧
+      ∀ v ∈ p'.vars, v ∈ p.vars ∨ v ∈ varsElems rem := by
   intro n
   induction n with
   | zero =>
@@ -517,14 +518,14 @@ theorem compressInner_oks (hnd : vt.leaves.Nodup) (hand : AndOKs P vt andF) (s :
     subst this
     simp only [compressInner, List.append_nil] at h
     cases h
-    exact ⟨hP, hp, hd, by simp, fun e he => by simpa using he⟩
+    exact ⟨hP, hp, hd, by simp, fun e he => by simpa using he, fun v hv => Or.inl hv⟩
   | succ n ih =>
     intro st p done rem st' p' out hP hp hd hr hlen h
     cases rem with
     | nil =>
       simp only [compressInner] at h
       cases h
-      exact ⟨hP, hp, hd, by simp, fun e he => by simpa using he⟩
+      exact ⟨hP, hp, hd, by simp, fun e he => by simpa using he, fun v hv => Or.inl hv⟩
     | cons x rest =>
       obtain ⟨q, t⟩ := x
       simp only [compressInner] at h
@@ -535,18 +536,25 @@ theorem compressInner_oks (hnd : vt.leaves.Nodup) (hand : AndOKs P vt andF) (s :
         split at h
         · cases h
         · rename_i st1 p1 hor
-          obtain ⟨hP1, hp1⟩ := or_primeOKs hnd hand hP hp ⟨hx.1, hx.2.2.1, hx.2.2.2.1⟩ hor
+          obtain ⟨hP1, hp1, hv1⟩ := or_primeOKs hnd hand hP hp ⟨hx.1, hx.2.2.1, hx.2.2.2.1⟩ hor
           have hrem' : ∀ e ∈ swapRemoveHead ((q, t) :: rest), ElemOKs vt i e :=
             fun e he => hrest e (swapRemoveHead_mem he)
           have hl' : (swapRemoveHead ((q, t) :: rest)).length ≤ n := by
             rw [swapRemoveHead_length]; simpa using hlen
-          obtain ⟨a1, a2, a3, a4, a5⟩ := ih _ _ _ _ _ _ _ hP1 hp1 hd hrem' hl' h
-          refine ⟨a1, a2, a3, ?_, ?_⟩
+          obtain ⟨a1, a2, a3, a4, a5, a6⟩ := ih _ _ _ _ _ _ _ hP1 hp1 hd hrem' hl' h
+          refine ⟨a1, a2, a3, ?_, ?_, ?_⟩
           · rw [swapRemoveHead_length] at a4; simp only [List.length_cons]; omega
           · intro e he
             rcases List.mem_append.1 (a5 e he) with h' | h'
             · exact List.mem_append.2 (Or.inl h')
             · exact List.mem_append.2 (Or.inr (List.mem_cons_of_mem _ (swapRemoveHead_mem h')))
+          · intro v hv
+            rcases a6 v hv with h' | h'
+            · rcases hv1 v h' with h'' | h''
+              · exact Or.inl h''
+              · exact Or.inr (by simp [varsElems, h''])
+            · obtain ⟨e, he, hve⟩ := mem_varsElems.1 h'
+              exact Or.inr (mem_varsElems.2 ⟨e, List.mem_cons_of_mem _ (swapRemoveHead_mem he), hve⟩)
       · rename_i hst
         have hd' : ∀ e ∈ done ++ [(q, t)], ElemOKs vt i e ∧ e.2 ≠ s := by
           intro e he
@@ -554,17 +562,22 @@ theorem compressInner_oks (hnd : vt.leaves.Nodup) (hand : AndOKs P vt andF) (s :
           · exact hd e h'
           · simp only [List.mem_singleton] at h'; subst h'
             exact ⟨hx, fun e => hst e.symm⟩
-        obtain ⟨a1, a2, a3, a4, a5⟩ := ih _ _ _ _ _ _ _ hP hp hd' hrest (by simpa using hlen) h
-        refine ⟨a1, a2, a3, ?_, ?_⟩
+        obtain ⟨a1, a2, a3, a4, a5, a6⟩ := ih _ _ _ _ _ _ _ hP hp hd' hrest (by simpa using hlen) h
+        refine ⟨a1, a2, a3, ?_, ?_, ?_⟩
         · simp only [List.length_append, List.length_cons, List.length_nil] at a4 ⊢; omega
         · intro e he; simpa using a5 e he
+        · intro v hv
+          rcases a6 v hv with h' | h'
+          · exact Or.inl h'
+          · obtain ⟨e, he, hve⟩ := mem_varsElems.1 h'
+            exact Or.inr (mem_varsElems.2 ⟨e, List.mem_cons_of_mem _ he, hve⟩)
 
 theorem compressOuter_oks (hnd : vt.leaves.Nodup) (hand : AndOKs P vt andF) :
     ∀ (n : Nat) (st : σ) (l : List Elem) (st' : σ) (out : List Elem),
     P st → (∀ e ∈ l, ElemOKs vt i e) → l.length ≤ n →
     compressOuter andF n st l = some (st', out) →
     P st' ∧ (∀ e ∈ out, ElemOKs vt i e) ∧ (out.map (·.2)).Nodup ∧
-      ∀ e ∈ out, ∃ e' ∈ l, e.2 = e'.2 := by
+      (∀ e ∈ out, ∃ e' ∈ l, e.2 = e'.2) ∧ ∀ v ∈ varsElems out, v ∈ varsElems l := by
   intro n
   induction n with
   | zero =>
@@ -572,13 +585,13 @@ theorem compressOuter_oks (hnd : vt.leaves.Nodup) (hand : AndOKs P vt andF) :
     have : l = [] := List.length_eq_zero_iff.1 (by omega)
     subst this
     simp only [compressOuter] at h; cases h
-    exact ⟨hP, hl, by simp, fun e he => by cases he⟩
+    exact ⟨hP, hl, by simp, fun e he => (by cases he), fun v hv => hv⟩
   | succ n ih =>
     intro st l st' out hP hl hlen h
     cases l with
     | nil =>
       simp only [compressOuter] at h; cases h
-      exact ⟨hP, hl, by simp, fun e he => by cases he⟩
+      exact ⟨hP, hl, by simp, fun e he => (by cases he), fun v hv => hv⟩
     | cons x rest =>
       obtain ⟨p, s⟩ := x
       simp only [compressOuter] at h
@@ -587,7 +600,7 @@ theorem compressOuter_oks (hnd : vt.leaves.Nodup) (hand : AndOKs P vt andF) :
       split at h
       · cases h
       · rename_i st1 p' rest' hin
-        obtain ⟨hP1, hp', hout1, hlen1, hmem1⟩ :=
+        obtain ⟨hP1, hp', hout1, hlen1, hmem1, hv1⟩ :=
           compressInner_oks hnd hand s _ _ _ _ _ _ _ _ hP ⟨hx.1, hx.2.2.1, hx.2.2.2.1⟩
             (fun e he => by cases he) hrest (Nat.le_refl _) hin
         split at h
@@ -595,9 +608,9 @@ theorem compressOuter_oks (hnd : vt.leaves.Nodup) (hand : AndOKs P vt andF) :
         · rename_i st2 out2 hrec
           cases h
           simp only [List.length_nil, Nat.zero_add, List.nil_append] at hlen1 hmem1
-          obtain ⟨hP2, hout2, hnd2, hsub2⟩ :=
+          obtain ⟨hP2, hout2, hnd2, hsub2, hv2⟩ :=
             ih _ _ _ _ hP1 (fun e he => (hout1 e he).1) (by simp only [List.length_cons] at hlen; omega) hrec
-          refine ⟨hP2, ?_, ?_, ?_⟩
+          refine ⟨hP2, ?_, ?_, ?_, ?_⟩
           · intro e he
             rcases List.mem_cons.1 he with rfl | h'
             · exact ⟨hp'.1, hx.2.1, hp'.2.1, hp'.2.2, hx.2.2.2.2⟩
@@ -613,6 +626,15 @@ theorem compressOuter_oks (hnd : vt.leaves.Nodup) (hand : AndOKs P vt andF) :
             · exact ⟨(p, s), List.mem_cons_self .., rfl⟩
             · obtain ⟨e', he', hee⟩ := hsub2 e h'
               exact ⟨e', List.mem_cons_of_mem _ (hmem1 e' he'), hee⟩
+          · intro v hv
+            simp only [varsElems, List.mem_append] at hv ⊢
+            rcases hv with h' | h' | h'
+            · rcases hv1 v h' with h'' | h''
+              · exact Or.inl h''
+              · exact Or.inr (Or.inr h'')
+            · exact Or.inr (Or.inl h')
+            · obtain ⟨e, he, hve⟩ := mem_varsElems.1 (hv2 v h')
+              exact Or.inr (Or.inr (mem_varsElems.2 ⟨e, hmem1 e he, hve⟩))
 
 theorem canonBase_wfs {es : List Elem} {r : Ptr} (hpart : Partition es)
     (hok : ∀ e ∈ es, ElemOKs vt i e) (h : canonBase? es = some r) :
@@ -636,17 +658,12 @@ theorem canonBase_wfs {es : List Elem} {r : Ptr} (hpart : Partition es)
   · cases h
 
 /-- with compression on, `canonicalize` returns a pointer in normal form -/
-theorem canonicalize_wfs (hnd : vt.leaves.Nodup) (hand : AndOK P vt andF) (hands : AndOKs P vt andF)
+theorem canonicalize_wfs {P0 : σ → Prop} (hP0 : ∀ st, P st → P0 st) (hnd : vt.leaves.Nodup)
+    (hand : AndOK P0 vt andF) (hands : AndOKs P vt andF)
     {st : σ} {l : List Elem} {st' : σ} {r : Ptr} (hP : P st) (hint : Internal vt i)
     (hpart : Partition l) (hok : ∀ e ∈ l, ElemOKs vt i e)
     (h : canonicalize true andF st l i = some (st', r)) :
-    P st' ∧ WFs vt r ∧ ∀ v ∈ r.vars, v ∈ vt.leftVars i ∨ v ∈ vt.rightVars i := by
-  have hvars : ∀ {es : List Elem}, (∀ e ∈ es, ElemOKs vt i e) → ∀ v ∈ varsElems es,
-      v ∈ vt.leftVars i ∨ v ∈ vt.rightVars i := by
-    intro es hes v hv
-    obtain ⟨e, he, hv | hv⟩ := mem_varsElems.1 hv
-    · exact Or.inl ((hes e he).2.2.2.1 v hv)
-    · exact Or.inr ((hes e he).2.2.2.2 v hv)
+    P st' ∧ WFs vt r ∧ ∀ v ∈ r.vars, v ∈ varsElems l := by
   have hokC : ElemsOK vt (vt.leftLeaf? i) l := fun e he =>
     ⟨WFs_WF _ (hok e he).1, WFs_WF _ (hok e he).2.1, depW_of_vars (hok e he).2.2.2.1⟩
   simp only [canonicalize] at h
@@ -654,26 +671,831 @@ theorem canonicalize_wfs (hnd : vt.leaves.Nodup) (hand : AndOK P vt andF) (hands
   · rename_i r0 hb
     cases h
     obtain ⟨w, v⟩ := canonBase_wfs hpart hok hb
-    exact ⟨hP, w, fun x hx => hvars hok x (v x hx)⟩
+    exact ⟨hP, w, v⟩
   · rename_i hb0
     simp only [if_true] at h
     split at h
     · cases h
     · rename_i st1 l1 hc
-      obtain ⟨hP1, _, hpart1, _⟩ := compress_ok hand hP hokC hpart hc
-      obtain ⟨_, hok1, hnd1, _⟩ := compressOuter_oks hnd hands _ _ _ _ _ hP hok (Nat.le_refl _) hc
+      obtain ⟨_, _, hpart1, _⟩ := compress_ok hand (hP0 _ hP) hokC hpart hc
+      obtain ⟨hP1, hok1, hnd1, _, hv1⟩ := compressOuter_oks hnd hands _ _ _ _ _ hP hok (Nat.le_refl _) hc
       split at h
       · rename_i r0 hb
         cases h
         obtain ⟨w, v⟩ := canonBase_wfs hpart1 hok1 hb
-        exact ⟨hP1, w, fun x hx => hvars hok1 x (v x hx)⟩
+        exact ⟨hP1, w, fun x hx => hv1 x (v x hx)⟩
       · rename_i hb
         simp only [Option.map_eq_some_iff] at h
         obtain ⟨r0, hu, he⟩ := h
         cases he
         obtain ⟨w, v⟩ := uniqueOr_wfs hnd hint hpart1 hok1 hnd1 hb hu
-        exact ⟨hP1, w, fun x hx => hvars hok1 x (v x hx)⟩
+        exact ⟨hP1, w, fun x hx => hv1 x (v x hx)⟩
 
 end compressS
+
+
+/-! ## the loops, structurally -/
+
+def VarsIn (T : Nat → Prop) (p : Ptr) : Prop := ∀ v ∈ p.vars, T v
+
+theorem varsIn_neg {T : Nat → Prop} {p : Ptr} (h : VarsIn T p) : VarsIn T p.neg := by
+  intro v hv; rw [vars_neg] at hv; exact h v hv
+theorem varsIn_tru (T : Nat → Prop) : VarsIn T .tru := fun v hv => by cases hv
+theorem varsIn_fls (T : Nat → Prop) : VarsIn T .fls := fun v hv => by cases hv
+
+def ElemT (vt : VTree) (Tp Ts : Nat → Prop) (e : Elem) : Prop :=
+  WFs vt e.1 ∧ WFs vt e.2 ∧ VarsIn Tp e.1 ∧ VarsIn Ts e.2
+
+def LoopT (vt : VTree) (Tp Ts : Nat → Prop) : LoopRes → Prop
+  | .elems l => ∀ e ∈ l, ElemT vt Tp Ts e ∧ e.1 ≠ .fls
+  | .early r => r = .tru
+
+section loopsS
+variable {σ : Type} {P : σ → Prop} {vt : VTree} {andF : AndF σ} {Tp Ts : Nat → Prop}
+
+theorem and_varsIn (hands : AndOKs P vt andF) {T : Nat → Prop} {st a b st' r} (hP : P st)
+    (wa : WFs vt a) (wb : WFs vt b) (va : VarsIn T a) (vb : VarsIn T b)
+    (h : andF st a b = some (st', r)) : P st' ∧ WFs vt r ∧ VarsIn T r := by
+  obtain ⟨h1, h2, h3, _⟩ := hands _ _ _ _ _ hP wa wb h
+  refine ⟨h1, h2, fun v hv => ?_⟩
+  rcases h3 v hv with h' | h'
+  · exact va v h'
+  · exact vb v h'
+
+theorem innerLoop_s (hands : AndOKs P vt andF) (brk : Bool) {p1 s1 : Ptr}
+    (wp1 : WFs vt p1) (ws1 : WFs vt s1) (vp1 : VarsIn Tp p1) (vs1 : VarsIn Ts s1) :
+    ∀ (eb : List Elem) (st st' : σ) (res : LoopRes), P st → (∀ e ∈ eb, ElemT vt Tp Ts e) →
+    innerLoop andF brk p1 s1 st eb = some (st', res) → P st' ∧ LoopT vt Tp Ts res := by
+  intro eb
+  induction eb with
+  | nil =>
+    intro st st' res hP _ h
+    simp only [innerLoop] at h
+    cases h
+    exact ⟨hP, fun e he => by cases he⟩
+  | cons x rest ih =>
+    intro st st' res hP hok h
+    obtain ⟨p2, s2⟩ := x
+    have hx := hok (p2, s2) (List.mem_cons_self ..)
+    have hrest : ∀ e ∈ rest, ElemT vt Tp Ts e := fun e he => hok e (List.mem_cons_of_mem _ he)
+    simp only [innerLoop] at h
+    split at h
+    · cases h
+    · rename_i st1 p hp
+      obtain ⟨hP1, wp, vp⟩ := and_varsIn hands hP wp1 hx.1 vp1 hx.2.2.1 hp
+      split at h
+      · exact ih _ _ _ hP1 hrest h
+      · rename_i hpf
+        have hpne : p ≠ .fls := by rintro rfl; simp [Ptr.isFalse] at hpf
+        split at h
+        · cases h
+        · rename_i st2 s hs
+          obtain ⟨hP2, ws, vs⟩ := and_varsIn hands hP1 ws1 hx.2.1 vs1 hx.2.2.2 hs
+          split at h
+          · cases h; exact ⟨hP2, rfl⟩
+          · split at h
+            · cases h
+              refine ⟨hP2, ?_⟩
+              intro e he
+              simp only [List.mem_singleton] at he; subst he
+              exact ⟨⟨wp, ws, vp, vs⟩, hpne⟩
+            · split at h
+              · cases h
+              · rename_i st3 r hrec
+                cases h
+                exact ih _ _ _ hP2 hrest hrec
+              · rename_i st3 l hrec
+                cases h
+                obtain ⟨hP', hres⟩ := ih _ _ _ hP2 hrest hrec
+                refine ⟨hP', ?_⟩
+                intro e he
+                rcases List.mem_cons.1 he with rfl | h'
+                · exact ⟨⟨wp, ws, vp, vs⟩, hpne⟩
+                · exact hres e h'
+
+theorem prodLoop_s (hands : AndOKs P vt andF) (cart : Bool) {eb : List Elem}
+    (hokb : ∀ e ∈ eb, ElemT vt Tp Ts e) :
+    ∀ (ea : List Elem) (st st' : σ) (res : LoopRes), P st →
+    (∀ e ∈ ea, ElemT vt Tp Ts e ∧ e.1 ≠ .fls) →
+    prodLoop andF cart eb st ea = some (st', res) → P st' ∧ LoopT vt Tp Ts res := by
+  intro ea
+  induction ea with
+  | nil =>
+    intro st st' res hP _ h
+    simp only [prodLoop] at h
+    cases h
+    exact ⟨hP, fun e he => by cases he⟩
+  | cons x rest ih =>
+    intro st st' res hP hok h
+    obtain ⟨p1, s1⟩ := x
+    obtain ⟨hx, hxne⟩ := hok (p1, s1) (List.mem_cons_self ..)
+    have hrest : ∀ e ∈ rest, ElemT vt Tp Ts e ∧ e.1 ≠ .fls :=
+      fun e he => hok e (List.mem_cons_of_mem _ he)
+    simp only [prodLoop] at h
+    split at h
+    · rename_i q s2 hfind
+      have hf : eb.find? (fun e => decide (e.1 = p1)) = some (q, s2) := by
+        cases cart
+        · simp at hfind
+        · simpa using hfind
+      obtain ⟨_, hmem⟩ := find?_prime hf
+      have hy := hokb _ hmem
+      split at h
+      · cases h
+      · rename_i st1 s hs
+        obtain ⟨hP1, ws, vs⟩ := and_varsIn hands hP hx.2.1 hy.2.1 hx.2.2.2 hy.2.2.2 hs
+        split at h
+        · cases h
+        · rename_i st2 r hrec
+          cases h
+          exact ih _ _ _ hP1 hrest hrec
+        · rename_i st2 l hrec
+          cases h
+          obtain ⟨hP', hres⟩ := ih _ _ _ hP1 hrest hrec
+          refine ⟨hP', ?_⟩
+          intro e he
+          rcases List.mem_cons.1 he with rfl | h'
+          · exact ⟨⟨hx.1, ws, hx.2.2.1, vs⟩, hxne⟩
+          · exact hres e h'
+    · split at h
+      · cases h
+      · rename_i st1 r hin
+        cases h
+        exact innerLoop_s hands cart hx.1 hx.2.1 hx.2.2.1 hx.2.2.2 eb _ _ _ hP hokb hin
+      · rename_i st1 l1 hin
+        obtain ⟨hP1, hpost⟩ := innerLoop_s hands cart hx.1 hx.2.1 hx.2.2.1 hx.2.2.2 eb _ _ _ hP hokb hin
+        split at h
+        · cases h
+        · rename_i st2 r hrec
+          cases h
+          exact ih _ _ _ hP1 hrest hrec
+        · rename_i st2 l hrec
+          cases h
+          obtain ⟨hP', hres⟩ := ih _ _ _ hP1 hrest hrec
+          refine ⟨hP', ?_⟩
+          intro e he
+          rcases List.mem_append.1 he with h' | h'
+          · exact hpost e h'
+          · exact hres e h'
+
+theorem subDescLoop_s (hands : AndOKs P vt andF) {d : Ptr} (wd : WFs vt d) (vd : VarsIn Ts d) :
+    ∀ (es : List Elem) (st st' : σ) (v : List Elem), P st →
+    (∀ e ∈ es, ElemT vt Tp Ts e ∧ e.1 ≠ .fls) →
+    subDescLoop andF d st es = some (st', v) →
+    P st' ∧ ∀ e ∈ v, ElemT vt Tp Ts e ∧ e.1 ≠ .fls := by
+  intro es
+  induction es with
+  | nil =>
+    intro st st' v hP _ h
+    simp only [subDescLoop] at h
+    cases h
+    exact ⟨hP, fun e he => by cases he⟩
+  | cons x rest ih =>
+    intro st st' v hP hok h
+    obtain ⟨p, s⟩ := x
+    obtain ⟨hx, hxne⟩ := hok (p, s) (List.mem_cons_self ..)
+    simp only [subDescLoop] at h
+    split at h
+    · cases h
+    · rename_i st1 ns hs
+      obtain ⟨hP1, wns, vns⟩ := and_varsIn hands hP hx.2.1 wd hx.2.2.2 vd hs
+      split at h
+      · cases h
+      · rename_i st2 v2 hrec
+        cases h
+        obtain ⟨hP', hok'⟩ := ih _ _ _ hP1 (fun e he => hok e (List.mem_cons_of_mem _ he)) hrec
+        refine ⟨hP', ?_⟩
+        intro e he
+        rcases List.mem_cons.1 he with rfl | h'
+        · exact ⟨⟨hx.1, wns, hx.2.2.1, vns⟩, hxne⟩
+        · exact hok' e h'
+
+end loopsS
+
+
+/-! ## the four vtree cases, structurally -/
+
+theorem elems?_s {vt : VTree} {r : Ptr} {es : List Elem} (wr : WFs vt r) (h : r.elems? = some es) :
+    Internal vt (vtreeIndex vt r) ∧ ∀ e ∈ es, ElemOKs vt (vtreeIndex vt r) e ∧
+      (∀ v ∈ e.1.vars, v ∈ r.vars) ∧ (∀ v ∈ e.2.vars, v ∈ r.vars) := by
+  cases r with
+  | tru => cases h
+  | fls => cases h
+  | lit v p => cases h
+  | bdd c l i lo hi =>
+    simp only [Ptr.elems?, Option.some.injEq] at h
+    subst h
+    have hf := nodeFacts_bdd wr
+    refine ⟨hf.internal, ?_⟩
+    intro e he
+    simp only [List.mem_cons, List.not_mem_nil, or_false] at he
+    have h1 := hf.ok (.lit l true, hi) (by simp)
+    have h2 := hf.ok (.lit l false, lo) (by simp)
+    rcases he with rfl | rfl
+    · refine ⟨⟨h1.1, by cases c <;> simp [WFs_neg, h1.2.1], h1.2.2.1, h1.2.2.2.1, ?_⟩, ?_, ?_⟩
+      · cases c <;> simp only [if_true, vars_neg] <;> exact h1.2.2.2.2
+      · intro v hv; simp only [Ptr.vars, List.mem_singleton] at hv; subst hv; simp [Ptr.vars]
+      · intro v hv
+        have : v ∈ hi.vars := by cases c <;> simpa [vars_neg] using hv
+        simp [Ptr.vars, this]
+    · refine ⟨⟨h2.1, by cases c <;> simp [WFs_neg, h2.2.1], h2.2.2.1, h2.2.2.2.1, ?_⟩, ?_, ?_⟩
+      · cases c <;> simp only [if_true, vars_neg] <;> exact h2.2.2.2.2
+      · intro v hv; simp only [Ptr.vars, List.mem_singleton] at hv; subst hv; simp [Ptr.vars]
+      · intro v hv
+        have : v ∈ lo.vars := by cases c <;> simpa [vars_neg] using hv
+        simp [Ptr.vars, this]
+  | dec c i es0 =>
+    simp only [Ptr.elems?, Option.some.injEq] at h
+    subst h
+    have hf := nodeFacts_dec wr
+    simp only [vtreeIndex]
+    refine ⟨hf.internal, ?_⟩
+    have base : ∀ e ∈ es0, ElemOKs vt i e ∧ (∀ v ∈ e.1.vars, v ∈ (Ptr.dec c i es0).vars) ∧
+        (∀ v ∈ e.2.vars, v ∈ (Ptr.dec c i es0).vars) := by
+      intro e he
+      refine ⟨hf.ok e he, ?_, ?_⟩
+      · intro v hv; simp only [Ptr.vars]; exact mem_varsElems.2 ⟨e, he, Or.inl hv⟩
+      · intro v hv; simp only [Ptr.vars]; exact mem_varsElems.2 ⟨e, he, Or.inr hv⟩
+    cases c
+    · exact base
+    · intro e he
+      simp only [if_true] at he
+      obtain ⟨e0, h0, rfl⟩ := mem_negSubs.1 he
+      obtain ⟨⟨a1, a2, a3, a4, a5⟩, b1, b2⟩ := base e0 h0
+      exact ⟨⟨a1, WFs_neg a2, a3, a4, by simpa [vars_neg] using a5⟩, b1, by simpa [vars_neg] using b2⟩
+
+section casesS
+variable {σ : Type} {P P0 : σ → Prop} {vt : VTree} {andF : AndF σ}
+
+/-- conversion between the two element predicates -/
+theorem elemOKs_of_T {i : Nat} {S : Nat → Prop} {e : Elem}
+    (h : ElemT vt (fun v => v ∈ vt.leftVars i ∧ S v) (fun v => v ∈ vt.rightVars i ∧ S v) e ∧
+      e.1 ≠ .fls) : ElemOKs vt i e :=
+  ⟨h.1.1, h.1.2.1, h.2, fun v hv => (h.1.2.2.1 v hv).1, fun v hv => (h.1.2.2.2 v hv).1⟩
+
+theorem elemT_S {i : Nat} {S : Nat → Prop} {l : List Elem}
+    (h : ∀ e ∈ l, ElemT vt (fun v => v ∈ vt.leftVars i ∧ S v) (fun v => v ∈ vt.rightVars i ∧ S v) e ∧
+      e.1 ≠ .fls) : ∀ v ∈ varsElems l, S v := by
+  intro v hv
+  obtain ⟨e, he, hv | hv⟩ := mem_varsElems.1 hv
+  · exact ((h e he).1.2.2.1 v hv).2
+  · exact ((h e he).1.2.2.2 v hv).2
+
+theorem andSubDesc_s (hP0 : ∀ st, P st → P0 st) (hnd : vt.leaves.Nodup) (hand : AndOK P0 vt andF)
+    (hands : AndOKs P vt andF) {st st' : σ} {r d res : Ptr} (hP : P st) (wr : WFs vt r)
+    (wd : WFs vt d) (hd : ∀ v ∈ d.vars, v ∈ vt.rightVars (vtreeIndex vt r))
+    (h : andSubDesc true andF st r d = some (st', res)) :
+    P st' ∧ WFs vt res ∧ ∀ v ∈ res.vars, v ∈ r.vars ∨ v ∈ d.vars := by
+  cases r with
+  | tru => simp [andSubDesc] at h
+  | fls => simp [andSubDesc] at h
+  | lit v p => simp [andSubDesc] at h
+  | bdd c l i lo hi =>
+    obtain ⟨hint, hl, wlo, whi, vlo, vhi, _⟩ := wr
+    simp only [vtreeIndex] at hd
+    simp only [andSubDesc] at h
+    split at h
+    · cases h
+    · rename_i st1 lr h1
+      obtain ⟨hP1, wlr, vlr, _⟩ := hands _ _ _ _ _ hP (by cases c <;> simp [WFs_neg, wlo]) wd h1
+      split at h
+      · cases h
+      · rename_i st2 hr h2
+        cases h
+        obtain ⟨hP2, whr, vhr, _⟩ := hands _ _ _ _ _ hP1 (by cases c <;> simp [WFs_neg, whi]) wd h2
+        have vlr' : ∀ v ∈ lr.vars, v ∈ lo.vars ∨ v ∈ d.vars := by
+          intro v hv; rcases vlr v hv with h' | h'
+          · left; cases c <;> simpa [vars_neg] using h'
+          · exact Or.inr h'
+        have vhr' : ∀ v ∈ hr.vars, v ∈ hi.vars ∨ v ∈ d.vars := by
+          intro v hv; rcases vhr v hv with h' | h'
+          · left; cases c <;> simpa [vars_neg] using h'
+          · exact Or.inr h'
+        obtain ⟨w, vv⟩ := uniqueBdd_wfs hint hl wlr whr
+          (fun v hv => (vlr' v hv).elim (vlo v) (hd v)) (fun v hv => (vhr' v hv).elim (vhi v) (hd v))
+        refine ⟨hP2, w, fun v hv => ?_⟩
+        rcases vv v hv with rfl | h' | h'
+        · left; simp [Ptr.vars]
+        · rcases vlr' v h' with h'' | h''
+          · left; simp [Ptr.vars, h'']
+          · exact Or.inr h''
+        · rcases vhr' v h' with h'' | h''
+          · left; simp [Ptr.vars, h'']
+          · exact Or.inr h''
+  | dec c i es =>
+    simp only [andSubDesc] at h
+    split at h
+    · cases h
+    · rename_i st1 v hloop
+      have hel : (Ptr.dec c i es).elems? = some (if c then negSubs es else es) := rfl
+      obtain ⟨hok, hpart, hint, _⟩ := elems?_ok (WFs_WF _ wr) hel
+      obtain ⟨_, hes⟩ := elems?_s wr hel
+      simp only [vtreeIndex] at hd hes hok hint
+      let S : Nat → Prop := fun v => v ∈ (Ptr.dec c i es).vars ∨ v ∈ d.vars
+      have hin : ∀ e ∈ (if c then negSubs es else es),
+          ElemT vt (fun v => v ∈ vt.leftVars i ∧ S v) (fun v => v ∈ vt.rightVars i ∧ S v) e ∧
+            e.1 ≠ .fls := by
+        intro e he
+        obtain ⟨⟨a1, a2, a3, a4, a5⟩, b1, b2⟩ := hes e he
+        exact ⟨⟨a1, a2, fun v hv => ⟨a4 v hv, Or.inl (b1 v hv)⟩, fun v hv => ⟨a5 v hv, Or.inl (b2 v hv)⟩⟩, a3⟩
+      obtain ⟨hP1, hout⟩ := subDescLoop_s hands wd (fun v hv => ⟨hd v hv, Or.inr hv⟩) _ _ _ _ hP hin hloop
+      obtain ⟨_, _, hsem⟩ := subDescLoop_ok hand (WFs_WF _ wd) _ _ _ _ (hP0 _ hP) hok hloop
+      have hpv : Partition v := fun a => by rw [(hsem a).1]; exact hpart a
+      obtain ⟨hP', wres, vres⟩ := canonicalize_wfs hP0 hnd hand hands hP1 hint hpv
+        (fun e he => elemOKs_of_T (hout e he)) h
+      exact ⟨hP', wres, fun x hx => elemT_S hout x (vres x hx)⟩
+
+theorem andPrimeDesc_s (hP0 : ∀ st, P st → P0 st) (hnd : vt.leaves.Nodup) (hand : AndOK P0 vt andF)
+    (hands : AndOKs P vt andF) {st st' : σ} {r d res : Ptr} (hP : P st) (wr : WFs vt r)
+    (wd : WFs vt d) (hd : ∀ v ∈ d.vars, v ∈ vt.leftVars (vtreeIndex vt r))
+    (h : andPrimeDesc true andF st r d = some (st', res)) :
+    P st' ∧ WFs vt res ∧ ∀ v ∈ res.vars, v ∈ r.vars ∨ v ∈ d.vars := by
+  simp only [andPrimeDesc] at h
+  split at h
+  · cases h
+  · rename_i er her
+    obtain ⟨hok, hpart, hint, _⟩ := elems?_ok (WFs_WF _ wr) her
+    obtain ⟨_, hes⟩ := elems?_s wr her
+    obtain ⟨hokd, hpd, _⟩ := pairD_ok (vt := vt) (WFs_WF _ wd) (depW_of_vars hd)
+    let S : Nat → Prop := fun v => v ∈ r.vars ∨ v ∈ d.vars
+    let i := vtreeIndex vt r
+    have hin : ∀ e ∈ er,
+        ElemT vt (fun v => v ∈ vt.leftVars i ∧ S v) (fun v => v ∈ vt.rightVars i ∧ S v) e ∧
+          e.1 ≠ .fls := by
+      intro e he
+      obtain ⟨⟨a1, a2, a3, a4, a5⟩, b1, b2⟩ := hes e he
+      exact ⟨⟨a1, a2, fun v hv => ⟨a4 v hv, Or.inl (b1 v hv)⟩, fun v hv => ⟨a5 v hv, Or.inl (b2 v hv)⟩⟩, a3⟩
+    have hinb : ∀ e ∈ [(d, Ptr.tru), (d.neg, Ptr.fls)],
+        ElemT vt (fun v => v ∈ vt.leftVars i ∧ S v) (fun v => v ∈ vt.rightVars i ∧ S v) e := by
+      intro e he
+      simp only [List.mem_cons, List.not_mem_nil, or_false] at he
+      rcases he with rfl | rfl
+      · exact ⟨wd, WFs_tru vt, fun v hv => ⟨hd v hv, Or.inr hv⟩, varsIn_tru _⟩
+      · exact ⟨WFs_neg wd, WFs_fls vt, fun v hv => by rw [vars_neg] at hv; exact ⟨hd v hv, Or.inr hv⟩,
+          varsIn_fls _⟩
+    split at h
+    · cases h
+    · rename_i st1 x hloop
+      cases h
+      obtain ⟨hP1, hpost⟩ := prodLoop_s hands false hinb _ _ _ _ hP hin hloop
+      simp only [LoopT] at hpost
+      subst hpost
+      exact ⟨hP1, WFs_tru vt, fun v hv => by cases hv⟩
+    · rename_i st1 l hloop
+      obtain ⟨hP1, hpost⟩ := prodLoop_s hands false hinb _ _ _ _ hP hin hloop
+      simp only [LoopT] at hpost
+      obtain ⟨_, hsem⟩ := prodLoop_ok hand false hokd hpd _ _ _ _ (hP0 _ hP) hok hloop
+      simp only [ProdPost] at hsem
+      have hpl : Partition l := fun a => by rw [(hsem.2 a).1]; exact hpart a
+      have hfin : ∀ j, vtreeIndex vt r = j → canonicalize true andF st1 l j = some (st', res) →
+          P st' ∧ WFs vt res ∧ ∀ v ∈ res.vars, v ∈ r.vars ∨ v ∈ d.vars := by
+        intro j hj hc
+        subst hj
+        obtain ⟨hP', wres, vres⟩ := canonicalize_wfs hP0 hnd hand hands hP1 hint hpl
+          (fun e he => elemOKs_of_T (hpost e he)) hc
+        exact ⟨hP', wres, fun x hx => elemT_S hpost x (vres x hx)⟩
+      split at h
+      · exact hfin _ rfl h
+      · exact hfin _ rfl h
+      · cases h
+
+theorem andCartesian_s (hP0 : ∀ st, P st → P0 st) (hnd : vt.leaves.Nodup) (hand : AndOK P0 vt andF)
+    (hands : AndOKs P vt andF) {st st' : σ} {a b res : Ptr} (hP : P st) (wa : WFs vt a)
+    (wb : WFs vt b) (hidx : vtreeIndex vt a = vtreeIndex vt b)
+    (h : andCartesian vt true andF st a b (vtreeIndex vt a) = some (st', res)) :
+    P st' ∧ WFs vt res ∧ ∀ v ∈ res.vars, v ∈ a.vars ∨ v ∈ b.vars := by
+  have general : (match a.elems?, b.elems? with
+      | some ea, some eb =>
+        match prodLoop andF true eb st ea with
+        | none => none
+        | some (st', .early x) => some (st', x)
+        | some (st', .elems l) => canonicalize true andF st' l (vtreeIndex vt a)
+      | _, _ => none) = some (st', res) →
+      P st' ∧ WFs vt res ∧ ∀ v ∈ res.vars, v ∈ a.vars ∨ v ∈ b.vars := by
+    intro h
+    split at h
+    · rename_i ea eb hea heb
+      obtain ⟨hoka, hpa, hinta, _⟩ := elems?_ok (WFs_WF _ wa) hea
+      obtain ⟨hokb, hpb, _, _⟩ := elems?_ok (WFs_WF _ wb) heb
+      obtain ⟨_, hesa⟩ := elems?_s wa hea
+      obtain ⟨_, hesb⟩ := elems?_s wb heb
+      rw [← hidx] at hokb hesb
+      let S : Nat → Prop := fun v => v ∈ a.vars ∨ v ∈ b.vars
+      let i := vtreeIndex vt a
+      have hina : ∀ e ∈ ea,
+          ElemT vt (fun v => v ∈ vt.leftVars i ∧ S v) (fun v => v ∈ vt.rightVars i ∧ S v) e ∧
+            e.1 ≠ .fls := by
+        intro e he
+        obtain ⟨⟨a1, a2, a3, a4, a5⟩, b1, b2⟩ := hesa e he
+        exact ⟨⟨a1, a2, fun v hv => ⟨a4 v hv, Or.inl (b1 v hv)⟩, fun v hv => ⟨a5 v hv, Or.inl (b2 v hv)⟩⟩, a3⟩
+      have hinb : ∀ e ∈ eb,
+          ElemT vt (fun v => v ∈ vt.leftVars i ∧ S v) (fun v => v ∈ vt.rightVars i ∧ S v) e := by
+        intro e he
+        obtain ⟨⟨a1, a2, a3, a4, a5⟩, b1, b2⟩ := hesb e he
+        exact ⟨a1, a2, fun v hv => ⟨a4 v hv, Or.inr (b1 v hv)⟩, fun v hv => ⟨a5 v hv, Or.inr (b2 v hv)⟩⟩
+      split at h
+      · cases h
+      · rename_i st1 x hloop
+        cases h
+        obtain ⟨hP1, hpost⟩ := prodLoop_s hands true hinb _ _ _ _ hP hina hloop
+        simp only [LoopT] at hpost
+        subst hpost
+        exact ⟨hP1, WFs_tru vt, fun v hv => by cases hv⟩
+      · rename_i st1 l hloop
+        obtain ⟨hP1, hpost⟩ := prodLoop_s hands true hinb _ _ _ _ hP hina hloop
+        simp only [LoopT] at hpost
+        obtain ⟨_, hsem⟩ := prodLoop_ok hand true hokb hpb _ _ _ _ (hP0 _ hP) hoka hloop
+        simp only [ProdPost] at hsem
+        have hpl : Partition l := fun asg => by rw [(hsem.2 asg).1]; exact hpa asg
+        obtain ⟨hP', wres, vres⟩ := canonicalize_wfs hP0 hnd hand hands hP1 hinta hpl
+          (fun e he => elemOKs_of_T (hpost e he)) h
+        exact ⟨hP', wres, fun x hx => elemT_S hpost x (vres x hx)⟩
+    · cases h
+  simp only [andCartesian] at h
+  split at h
+  · rename_i c l i lo hi hm
+    have hrl : vt.isRLAt (vtreeIndex vt a) = true := by
+      cases hr : vt.isRLAt (vtreeIndex vt a)
+      · rw [hr] at hm; simp at hm
+      · rfl
+    rw [hrl] at hm
+    simp only [if_true] at hm
+    subst hm
+    obtain ⟨hint, hl, wlo, whi, vlo, vhi, _⟩ := wa
+    split at h
+    · rename_i bl bh hbl hbh
+      cases b with
+      | bdd c' l' i' lo' hi' =>
+        simp only [Ptr.low?, Ptr.high?, Option.some.injEq] at hbl hbh
+        subst hbl hbh
+        obtain ⟨_, _, wlo', whi', vlo', vhi', _⟩ := wb
+        simp only [vtreeIndex] at hidx
+        subst hidx
+        split at h
+        · cases h
+        · rename_i st1 lr h1
+          obtain ⟨hP1, wlr, vlr, _⟩ := hands _ _ _ _ _ hP (by cases c <;> simp [WFs_neg, wlo])
+            (by cases c' <;> simp [WFs_neg, wlo']) h1
+          split at h
+          · cases h
+          · rename_i st2 hr h2
+            cases h
+            obtain ⟨hP2, whr, vhr, _⟩ := hands _ _ _ _ _ hP1 (by cases c <;> simp [WFs_neg, whi])
+              (by cases c' <;> simp [WFs_neg, whi']) h2
+            have vlr' : ∀ v ∈ lr.vars, v ∈ lo.vars ∨ v ∈ lo'.vars := by
+              intro v hv; rcases vlr v hv with h' | h'
+              · left; cases c <;> simpa [vars_neg] using h'
+              · right; cases c' <;> simpa [vars_neg] using h'
+            have vhr' : ∀ v ∈ hr.vars, v ∈ hi.vars ∨ v ∈ hi'.vars := by
+              intro v hv; rcases vhr v hv with h' | h'
+              · left; cases c <;> simpa [vars_neg] using h'
+              · right; cases c' <;> simpa [vars_neg] using h'
+            simp only [vtreeIndex]
+            obtain ⟨w, vv⟩ := uniqueBdd_wfs hint hl wlr whr
+              (fun v hv => (vlr' v hv).elim (vlo v) (vlo' v))
+              (fun v hv => (vhr' v hv).elim (vhi v) (vhi' v))
+            refine ⟨hP2, w, fun v hv => ?_⟩
+            rcases vv v hv with rfl | h' | h'
+            · left; simp [Ptr.vars]
+            · rcases vlr' v h' with h'' | h''
+              · left; simp [Ptr.vars, h'']
+              · right; simp [Ptr.vars, h'']
+            · rcases vhr' v h' with h'' | h''
+              · left; simp [Ptr.vars, h'']
+              · right; simp [Ptr.vars, h'']
+      | _ => simp [Ptr.low?] at hbl
+    · cases h
+  · exact general h
+
+theorem andIndep_s (hnd : vt.leaves.Nodup) {a b res : Ptr} {k : Nat} (wa : WFs vt a) (wb : WFs vt b)
+    (hint : Internal vt k) (ha : ∀ v ∈ a.vars, v ∈ vt.leftVars k)
+    (hb : ∀ v ∈ b.vars, v ∈ vt.rightVars k)
+    (na1 : a ≠ .tru) (na2 : a ≠ .fls) (nb1 : b ≠ .tru) (nb2 : b ≠ .fls)
+    (h : andIndep vt a b k = some res) :
+    WFs vt res ∧ ∀ v ∈ res.vars, v ∈ a.vars ∨ v ∈ b.vars := by
+  simp only [andIndep] at h
+  split at h
+  · split at h
+    · rename_i l
+      cases h
+      obtain ⟨w, vv⟩ := uniqueBdd_wfs (l := l) (lo := .fls) (hi := b) hint (ha l (by simp [Ptr.vars]))
+        (WFs_fls vt) wb (fun v hv => by cases hv) hb
+      refine ⟨w, fun v hv => ?_⟩
+      rcases vv v hv with rfl | h' | h'
+      · left; simp [Ptr.vars]
+      · cases h'
+      · exact Or.inr h'
+    · rename_i l
+      cases h
+      obtain ⟨w, vv⟩ := uniqueBdd_wfs (l := l) (lo := b) (hi := .fls) hint (ha l (by simp [Ptr.vars]))
+        wb (WFs_fls vt) hb (fun v hv => by cases hv)
+      refine ⟨w, fun v hv => ?_⟩
+      rcases vv v hv with rfl | h' | h'
+      · left; simp [Ptr.vars]
+      · exact Or.inr h'
+      · cases h'
+    · cases h
+  · have hok : ∀ e ∈ [(a, b), (a.neg, Ptr.fls)], ElemOKs vt k e := by
+      intro e he
+      simp only [List.mem_cons, List.not_mem_nil, or_false] at he
+      rcases he with rfl | rfl
+      · exact ⟨wa, wb, na2, ha, hb⟩
+      · refine ⟨WFs_neg wa, WFs_fls vt, ?_, by simpa [vars_neg] using ha, fun v hv => by cases hv⟩
+        intro e; apply na1
+        have := congrArg Ptr.neg e; rw [neg_neg] at this; exact this
+    have hpart : Partition [(a, b), (a.neg, .fls)] := by
+      intro asg; simp only [cnt_cons, cnt_nil, eval_neg]; cases a.eval asg <;> simp
+    have hsubs : (([(a, b), (a.neg, Ptr.fls)] : List Elem).map (·.2)).Nodup := by
+      simp only [List.map_cons, List.map_nil, List.nodup_cons, List.mem_singleton,
+        List.not_mem_nil, not_false_eq_true, List.nodup_nil, and_true]
+      exact nb2
+    have hbase : canonBase? [(a, b), (a.neg, Ptr.fls)] = none := by
+      have h1 : b.isTrue = false := by cases b <;> simp_all [Ptr.isTrue]
+      have h2 : b.isFalse = false := by cases b <;> simp_all [Ptr.isFalse]
+      simp [canonBase?, h1, h2]
+    obtain ⟨w, vv⟩ := uniqueOr_wfs hnd hint hpart hok hsubs hbase h
+    refine ⟨w, fun v hv => ?_⟩
+    have := vv v hv
+    simp only [varsElems, vars_neg, Ptr.vars, List.mem_append, List.append_nil, List.not_mem_nil,
+      or_false] at this
+    rcases this with h' | h' | h'
+    · exact Or.inl h'
+    · exact Or.inr h'
+    · exact Or.inl h'
+
+end casesS
+
+
+/-! ## `and`, structurally -/
+
+/-- structural apply-cache invariant -/
+def AppInvS (A : CacheImpl (Ptr × Ptr)) (vt : VTree) (s : A.σ) : Prop :=
+  ∀ k r, A.get s k = some r → WFs vt r ∧ ∀ v ∈ r.vars, v ∈ k.1.vars ∨ v ∈ k.2.vars
+
+/-- the combined state invariant -/
+def AppInv2 (A : CacheImpl (Ptr × Ptr)) (vt : VTree) (s : A.σ) : Prop :=
+  AppInv A vt s ∧ AppInvS A vt s
+
+theorem appInv2_empty (A : CacheImpl (Ptr × Ptr)) (vt : VTree) : AppInv2 A vt A.empty :=
+  ⟨appInv_empty A vt, fun k r h => by rw [A.empty_get] at h; cases h⟩
+
+theorem appInvS_insert {A : CacheImpl (Ptr × Ptr)} {vt : VTree} {s : A.σ} {k : Ptr × Ptr} {r : Ptr}
+    (hs : AppInvS A vt s) (wr : WFs vt r) (vr : ∀ v ∈ r.vars, v ∈ k.1.vars ∨ v ∈ k.2.vars) :
+    AppInvS A vt (A.insert s k r) := by
+  intro k' r' h
+  rcases A.lawful _ _ _ _ _ h with ⟨rfl, rfl⟩ | h'
+  · exact ⟨wr, vr⟩
+  · exact hs k' r' h'
+
+theorem varsAt_sub {vt : VTree} {i : Nat} {s : VTree} (h : vt.sub? 0 i = some s) :
+    vt.varsAt i = s.leaves := by simp [VTree.varsAt, h]
+
+section andS
+variable {A : CacheImpl (Ptr × Ptr)} {vt : VTree} {andF : AndF A.σ}
+
+theorem andCore_s (hnd : vt.leaves.Nodup) (hand : AndOK (AppInv A vt) vt andF)
+    (hands : AndOKs (AppInv2 A vt) vt andF) {st st' : A.σ} {x y r : Ptr}
+    (hP : AppInv2 A vt st) (wx : WFs vt x) (wy : WFs vt y)
+    (hx1 : x ≠ .tru) (hx2 : x ≠ .fls) (hy1 : y ≠ .tru) (hy2 : y ≠ .fls)
+    (hle : vtreeIndex vt x = vtreeIndex vt y ∨ vtreeIndex vt x < vtreeIndex vt y)
+    (h : andCore A vt true andF st x y = some (st', r)) :
+    AppInvS A vt st' ∧ WFs vt r ∧ ∀ v ∈ r.vars, v ∈ x.vars ∨ v ∈ y.vars := by
+  have hP0 : ∀ st, AppInv2 A vt st → AppInv A vt st := fun _ h => h.1
+  have ix1 : x.isTrue = false := by cases x <;> simp_all [Ptr.isTrue]
+  have ix2 : x.isFalse = false := by cases x <;> simp_all [Ptr.isFalse]
+  have iy1 : y.isTrue = false := by cases y <;> simp_all [Ptr.isTrue]
+  have iy2 : y.isFalse = false := by cases y <;> simp_all [Ptr.isFalse]
+  simp only [andCore] at h
+  split at h
+  · rename_i v hget
+    cases h
+    exact ⟨hP.2, hP.2 _ _ hget⟩
+  · obtain ⟨sx, hsx⟩ := vtreeIndex_sub (WFs_WF _ wx) ix1 ix2
+    obtain ⟨sy, hsy⟩ := vtreeIndex_sub (WFs_WF _ wy) iy1 iy2
+    have vx := wfs_vars_at wx
+    have vy := wfs_vars_at wy
+    rw [varsAt_sub hsx] at vx
+    rw [varsAt_sub hsy] at vy
+    have core : ∀ {st1 : A.σ} {r1 : Ptr}, AppInv2 A vt st1 → WFs vt r1 →
+        (∀ v ∈ r1.vars, v ∈ x.vars ∨ v ∈ y.vars) →
+        AppInvS A vt (A.insert st1 (x, y) r1) ∧ WFs vt r1 ∧ ∀ v ∈ r1.vars, v ∈ x.vars ∨ v ∈ y.vars :=
+      fun h1 h2 h3 => ⟨appInvS_insert h1.2 h2 h3, h2, h3⟩
+    split at h
+    · cases h
+    · rename_i st1 r1 hr
+      cases h
+      split at hr
+      · rename_i heq
+        rw [← heq, VTree.lca_self hsx] at hr
+        obtain ⟨h1, h2, h3⟩ := andCartesian_s hP0 hnd hand hands hP wx wy heq hr
+        exact core h1 h2 h3
+      · rename_i hne
+        have hlt : vtreeIndex vt x < vtreeIndex vt y := by
+          rcases hle with h' | h'
+          · exact absurd h' hne
+          · exact h'
+        obtain ⟨l, r0, hk, hL, hR, _, _⟩ := VTree.lca_sides hsx hsy hlt
+        split at hr
+        · rename_i hka
+          rw [hka] at hk hR
+          have hd : ∀ v ∈ y.vars, v ∈ vt.rightVars (vtreeIndex vt x) := by
+            intro v hv
+            simp only [VTree.rightVars, hk]
+            exact hR hlt v (vy v hv)
+          obtain ⟨h1, h2, h3⟩ := andSubDesc_s hP0 hnd hand hands hP wx wy hd hr
+          exact core h1 h2 h3
+        · rename_i hna
+          split at hr
+          · rename_i hkb
+            rw [hkb] at hk hL
+            have hd : ∀ v ∈ x.vars, v ∈ vt.leftVars (vtreeIndex vt y) := by
+              intro v hv
+              simp only [VTree.leftVars, hk]
+              exact hL hlt v (vx v hv)
+            obtain ⟨h1, h2, h3⟩ := andPrimeDesc_s hP0 hnd hand hands hP wy wx hd hr
+            exact core h1 h2 (fun v hv => (h3 v hv).symm)
+          · rename_i hnb
+            simp only [Option.map_eq_some_iff] at hr
+            obtain ⟨r0', hr0, he⟩ := hr
+            cases he
+            have hlo : vtreeIndex vt x < vt.lca 0 (vtreeIndex vt x) (vtreeIndex vt y) := by omega
+            have hhi : vt.lca 0 (vtreeIndex vt x) (vtreeIndex vt y) < vtreeIndex vt y := by omega
+            obtain ⟨h2, h3⟩ := andIndep_s hnd wx wy ⟨l, r0, hk⟩
+              (fun v hv => by simp only [VTree.leftVars, hk]; exact hL hlo v (vx v hv))
+              (fun v hv => by simp only [VTree.rightVars, hk]; exact hR hhi v (vy v hv))
+              hx1 hx2 hy1 hy2 hr0
+            exact core hP h2 h3
+
+theorem andBody_s (hnd : vt.leaves.Nodup) (hand : AndOK (AppInv A vt) vt andF)
+    (hands : AndOKs (AppInv2 A vt) vt andF) :
+    AndOKs (AppInv2 A vt) vt (andBody A vt true andF) := by
+  intro st a b st' r hP wa wb h
+  -- semantics and the C03 state invariant come from `andBody_ok`
+  obtain ⟨hA', _, hsem⟩ := andBody_ok (cmpr := true) hand st a b st' r hP.1 (WFs_WF _ wa) (WFs_WF _ wb) h
+  suffices hs : AppInvS A vt st' ∧ WFs vt r ∧ ∀ v ∈ r.vars, v ∈ a.vars ∨ v ∈ b.vars from
+    ⟨⟨hA', hs.1⟩, hs.2.1, hs.2.2, hsem⟩
+  simp only [andBody] at h
+  split at h
+  · cases h; exact ⟨hP.2, wb, fun v hv => Or.inr hv⟩
+  · rename_i ha1
+    split at h
+    · cases h; exact ⟨hP.2, wa, fun v hv => Or.inl hv⟩
+    · rename_i hb1
+      split at h
+      · cases h; exact ⟨hP.2, WFs_fls vt, fun v hv => by cases hv⟩
+      · rename_i ha2
+        split at h
+        · cases h; exact ⟨hP.2, WFs_fls vt, fun v hv => by cases hv⟩
+        · rename_i hb2
+          split at h
+          · cases h; exact ⟨hP.2, wa, fun v hv => Or.inl hv⟩
+          · split at h
+            · cases h; exact ⟨hP.2, WFs_fls vt, fun v hv => by cases hv⟩
+            · have na1 : a ≠ .tru := by rintro rfl; simp [Ptr.isTrue] at ha1
+              have na2 : a ≠ .fls := by rintro rfl; simp [Ptr.isFalse] at ha2
+              have nb1 : b ≠ .tru := by rintro rfl; simp [Ptr.isTrue] at hb1
+              have nb2 : b ≠ .fls := by rintro rfl; simp [Ptr.isFalse] at hb2
+              split at h
+              · rename_i hle
+                exact andCore_s hnd hand hands hP wa wb na1 na2 nb1 nb2 hle h
+              · rename_i hle
+                obtain ⟨h1, h2, h3⟩ := andCore_s hnd hand hands hP wb wa nb1 nb2 na1 na2 (by omega) h
+                exact ⟨h1, h2, fun v hv => (h3 v hv).symm⟩
+
+end andS
+
+/-- the compressing `and` only returns pointers in normal form -/
+theorem and_s (A : CacheImpl (Ptr × Ptr)) {vt : VTree} (hnd : vt.leaves.Nodup) :
+    ∀ fuel, AndOKs (AppInv2 A vt) vt (and A vt true fuel)
+  | 0 => by intro st a b st' r _ _ _ h; simp [and] at h
+  | fuel + 1 => by
+    have := andBody_s hnd (and_ok A vt true fuel) (and_s A hnd fuel)
+    simpa [and] using this
+
+
+/-! ## `condition`, structurally -/
+
+section condS
+variable {σ : Type} {P P0 : σ → Prop} {vt : VTree} {andF : AndF σ} {Tp Ts : Nat → Prop}
+
+def CondOKs (P : σ → Prop) (vt : VTree) (condF : σ → Ptr → Option (σ × Ptr)) : Prop :=
+  ∀ st f st' r, P st → WFs vt f → condF st f = some (st', r) →
+    P st' ∧ WFs vt r ∧ ∀ u ∈ r.vars, u ∈ f.vars
+
+def CondT (vt : VTree) (Tp Ts : Nat → Prop) : LoopRes → Prop
+  | .elems l => ∀ e ∈ l, ElemT vt Tp Ts e ∧ e.1 ≠ .fls
+  | .early r => WFs vt r ∧ VarsIn Ts r
+
+theorem condLoop_s {condF : σ → Ptr → Option (σ × Ptr)} (hc : CondOKs P vt condF) :
+    ∀ (es : List Elem) (st st' : σ) (res : LoopRes), P st → (∀ e ∈ es, ElemT vt Tp Ts e) →
+    condLoop condF st es = some (st', res) → P st' ∧ CondT vt Tp Ts res := by
+  intro es
+  induction es with
+  | nil =>
+    intro st st' res hP _ h
+    simp only [condLoop] at h
+    cases h
+    exact ⟨hP, fun e he => by cases he⟩
+  | cons e rest ih =>
+    intro st st' res hP hok h
+    obtain ⟨p, s⟩ := e
+    have hx := hok (p, s) (List.mem_cons_self ..)
+    have hrest : ∀ e ∈ rest, ElemT vt Tp Ts e := fun e he => hok e (List.mem_cons_of_mem _ he)
+    simp only [condLoop] at h
+    split at h
+    · cases h
+    · rename_i st1 newp hp
+      obtain ⟨hP1, wnp, vnp⟩ := hc _ _ _ _ hP hx.1 hp
+      split at h
+      · exact ih _ _ _ hP1 hrest h
+      · rename_i hnf
+        have hne : newp ≠ .fls := by rintro rfl; simp [Ptr.isFalse] at hnf
+        split at h
+        · cases h
+        · rename_i st2 news hs
+          obtain ⟨hP2, wns, vns⟩ := hc _ _ _ _ hP1 hx.2.1 hs
+          split at h
+          · cases h
+            exact ⟨hP2, wns, fun u hu => hx.2.2.2 u (vns u hu)⟩
+          · split at h
+            · cases h
+            · rename_i st3 r hrec
+              cases h
+              exact ih _ _ _ hP2 hrest hrec
+            · rename_i st3 l hrec
+              cases h
+              obtain ⟨hP', hres⟩ := ih _ _ _ hP2 hrest hrec
+              refine ⟨hP', ?_⟩
+              intro e he
+              rcases List.mem_cons.1 he with rfl | h'
+              · exact ⟨⟨wnp, wns, fun u hu => hx.2.2.1 u (vnp u hu),
+                  fun u hu => hx.2.2.2 u (vns u hu)⟩, hne⟩
+              · exact hres e h'
+
+theorem condition_s (hP0 : ∀ st, P st → P0 st) (hnd : vt.leaves.Nodup) (hand : AndOK P0 vt andF)
+    (hands : AndOKs P vt andF) (x : Nat) (v : Bool) :
+    ∀ n, CondOKs P vt (condition true andF x v n)
+  | 0 => by intro st f st' r _ _ h; simp [condition] at h
+  | n + 1 => by
+    have ih := condition_s hP0 hnd hand hands x v n
+    have ihc := condition_ok hand true x v n
+    intro st f st' r hP wf h
+    have node : ∀ (es : List Elem) (i : Nat), f.elems? = some es → vtreeIndex vt f = i →
+        (match condLoop (condition true andF x v n) st es with
+          | none => none
+          | some (st', .early r) => some (st', r)
+          | some (st', .elems es') => canonicalize true andF st' es' i) = some (st', r) →
+        P st' ∧ WFs vt r ∧ ∀ u ∈ r.vars, u ∈ f.vars := by
+      intro es i hes hi h
+      subst hi
+      obtain ⟨hok, hpart, hint, _⟩ := elems?_ok (WFs_WF _ wf) hes
+      obtain ⟨_, hel⟩ := elems?_s wf hes
+      let S : Nat → Prop := fun u => u ∈ f.vars
+      let i := vtreeIndex vt f
+      have hin : ∀ e ∈ es,
+          ElemT vt (fun u => u ∈ vt.leftVars i ∧ S u) (fun u => u ∈ vt.rightVars i ∧ S u) e := by
+        intro e he
+        obtain ⟨⟨a1, a2, _, a4, a5⟩, b1, b2⟩ := hel e he
+        exact ⟨a1, a2, fun u hu => ⟨a4 u hu, b1 u hu⟩, fun u hu => ⟨a5 u hu, b2 u hu⟩⟩
+      split at h
+      · cases h
+      · rename_i st1 r1 hloop
+        cases h
+        obtain ⟨hP1, hpost⟩ := condLoop_s ih _ _ _ _ hP hin hloop
+        simp only [CondT] at hpost
+        exact ⟨hP1, hpost.1, fun u hu => (hpost.2 u hu).2⟩
+      · rename_i st1 l hloop
+        obtain ⟨hP1, hpost⟩ := condLoop_s ih _ _ _ _ hP hin hloop
+        simp only [CondT] at hpost
+        obtain ⟨_, hsem⟩ := condLoop_ok ihc _ _ _ _ (hP0 _ hP) hok hloop
+        simp only [CondPost] at hsem
+        have hpl : Partition l := fun a => by
+          rw [(hsem.2 a (by rw [hpart]; exact Nat.le_refl 1)).1]; exact hpart _
+        obtain ⟨hP', wr, vr⟩ := canonicalize_wfs hP0 hnd hand hands hP1 hint hpl
+          (fun e he => elemOKs_of_T (hpost e he)) h
+        exact ⟨hP', wr, fun u hu => elemT_S hpost u (vr u hu)⟩
+    cases f with
+    | tru => simp only [condition] at h; cases h; exact ⟨hP, WFs_tru vt, fun u hu => hu⟩
+    | fls => simp only [condition] at h; cases h; exact ⟨hP, WFs_fls vt, fun u hu => hu⟩
+    | lit l p =>
+      simp only [condition] at h
+      cases h
+      refine ⟨hP, ?_, ?_⟩
+      · split
+        · split
+          · exact WFs_tru vt
+          · exact WFs_fls vt
+        · exact wf
+      · split
+        · split <;> exact fun u hu => by cases hu
+        · exact fun u hu => hu
+    | bdd c l i lo hi =>
+      simp only [condition] at h
+      exact node _ i rfl rfl h
+    | dec c i es =>
+      simp only [condition] at h
+      exact node _ i rfl rfl h
+
+end condS
 
 end Sdd
